@@ -159,6 +159,82 @@ Section GoSortFacts.
 End GoSortFacts.
 
   (* ---- sort_less derived from a comparator with a value function ---- *)
+Lemma StronglySorted_impl {A} (R1 R2 : A -> A -> Prop) l :
+  (forall a b, R1 a b -> R2 a b) -> StronglySorted R1 l -> StronglySorted R2 l.
+Proof.
+  intros H S. induction S as [|x l S IH Hx]; constructor; auto.
+  rewrite Forall_forall in *. intros y Hy. apply H. auto.
+Qed.
+
+Lemma StronglySorted_impl_in {A} (R1 R2 : A -> A -> Prop) l :
+  (forall a b, In a l -> In b l -> R1 a b -> R2 a b) -> StronglySorted R1 l -> StronglySorted R2 l.
+Proof.
+  intros H S. induction S as [|x l S IH Hx]; constructor.
+  - apply IH. intros a b Ha Hb. apply H; now right.
+  - rewrite Forall_forall in *. intros y Hy. apply H; [now left|now right|auto].
+Qed.
+
+Section GoSortWeak.
+  (* insertion sort with duplicates allowed: the result is weakly sorted *)
+  Variable A : Type.
+  Variable less : A -> A -> bool.
+  Variable P : A -> Prop.
+  Hypothesis less_irrefl : forall a, P a -> less a a = false.
+  Hypothesis less_trans : forall a b c, P a -> P b -> P c ->
+      less a b = true -> less b c = true -> less a c = true.
+  Hypothesis less_total : forall a b, P a -> P b -> a <> b -> less a b = true \/ less b a = true.
+
+  Lemma ins_sorted_weak x rp :
+    P x -> Forall P rp ->
+    StronglySorted (fun a b => less a b = false) rp ->
+    StronglySorted (fun a b => less a b = false) (ins less x rp).
+  Proof.
+    intros Px; induction rp as [|y rp IH]; intros HP Hs; cbn [ins].
+    - constructor; constructor.
+    - inversion HP as [|? ? Py HP']; subst. inversion Hs as [|? ? Hs' Hy]; subst.
+      destruct (less x y) eqn:E.
+      + constructor; [apply IH; auto|].
+        rewrite Forall_forall. intros z Hz.
+        apply (Permutation_in _ (ins_perm _ less x rp)) in Hz. destruct Hz as [<-|Hz].
+        * destruct (less y x) eqn:E2; [|reflexivity].
+          rewrite <- (less_irrefl x Px). symmetry. now apply (less_trans x y x).
+        * rewrite Forall_forall in Hy. now apply Hy.
+      + constructor; [constructor; auto|].
+        constructor; [exact E|].
+        rewrite Forall_forall in *. intros z Hz. specialize (Hy z Hz).
+        destruct (less x z) eqn:E3; [|reflexivity]. exfalso.
+        assert (Pz : P z) by (apply HP'; exact Hz).
+        destruct (less_total x y Px Py) as [T|T].
+        * intro; subst. congruence.
+        * congruence.
+        * rewrite (less_trans y x z Py Px Pz T E3) in Hy. discriminate.
+  Qed.
+
+  Lemma fold_ins_sorted_weak l acc :
+    Forall P l -> Forall P acc ->
+    StronglySorted (fun a b => less a b = false) acc ->
+    StronglySorted (fun a b => less a b = false) (fold_left (fun rp x => ins less x rp) l acc).
+  Proof.
+    revert acc; induction l as [|x l IH]; intros acc HPl HPa Hs; cbn [fold_left]; [exact Hs|].
+    inversion HPl as [|? ? Px HPl']; subst. apply IH; auto.
+    - rewrite Forall_forall. intros z Hz. apply (Permutation_in _ (ins_perm _ less x acc)) in Hz.
+      destruct Hz as [<-|Hz]; [exact Px|]. rewrite Forall_forall in HPa; auto.
+    - apply ins_sorted_weak; auto.
+  Qed.
+
+  Theorem gosort_sorted_weak l :
+    Forall P l -> StronglySorted (fun a b => less b a = false) (gosort less l).
+  Proof.
+    intros HP. unfold gosort.
+    assert (S : StronglySorted (fun a b => less a b = false) (fold_left (fun rp x => ins less x rp) l [])).
+    { apply fold_ins_sorted_weak; auto; constructor. }
+    revert S. generalize (fold_left (fun rp x => ins less x rp) l []). intros r S.
+    induction r as [|x r IH]; cbn [rev]; [constructor|].
+    inversion S as [|? ? S' Hx]; subst. apply sorted_snoc; [apply IH; exact S'|].
+    rewrite Forall_forall in *. intros y Hy. apply Hx. now apply in_rev.
+  Qed.
+End GoSortWeak.
+
 Section SortWith.
     Variable A : Type.
     Variable val : A -> A -> Z.
